@@ -299,7 +299,10 @@ def isolate(ctx: Ctx, rule="R-C17-ISOLATE") -> None:
         return False
 
     ap = [n for n in ast.walk(f.node) if isinstance(n, ast.Call) and isinstance(n.func, ast.Attribute) and n.func.attr == "append" and n.args and is_wrapper(n.args[0])]
-    ctx.check(len(ap) == 1 and unparse(ap[0].func) in ("self.subscribers[name].append", "self.subscribers.setdefault(name, []).append"), rule, f, "wrapper registered under the subscriber's name", "self.subscribers[name].append(wrapper)",
+    fparam = [p_.arg for p_ in f.params()][1]
+    key_txt = f"{fparam}.__name__"  # the subscriber is filed under its own function name
+    ap_txt = C.utext(f, ap[0].func) if len(ap) == 1 else ""
+    ctx.check(len(ap) == 1 and ap_txt in (f"self.subscribers[{key_txt}].append", f"self.subscribers.setdefault({key_txt}, []).append"), rule, f, "wrapper registered under the subscriber's name", "self.subscribers[name].append(wrapper)",
               "add_subscriber does not register the isolating wrapper", instance="wrapper registered")
     e = ctx.func(f"{MIDDLEWARE}.emit_signal")
     gat = [n for n in ast.walk(e.node) if isinstance(n, ast.Call) and (dotted(n.func) or "").endswith("gather")]
